@@ -18,7 +18,7 @@ func init() {
 			"(R33.1) a job is accepted (nil) only after one semaphore unit was acquired under the accepting context, and every accepted job starts exactly one goroutine that releases that unit by defer, calls the job function once with the job, and cancels the worker with the job's own error; " +
 			"(R33.2) waiting acquires the whole semaphore with a context the worker cannot cancel itself (so it cannot return while accepted jobs run), Wait does it after the accept side was closed and answers the cancel cause; " +
 			"(R33.3) the run helpers hand in every index once (per-iteration loop variable, go >= 1.22), call Done before Wait and return Wait's answer; " +
-			"(R33.4) BatchWork calls the batch preparation with the batch's last index before that batch's jobs, runs indexes i..end-1 of each batch, advances by the limit and stops exactly when end reached size.",
+			"(R33.4) BatchWork calls the batch preparation with the batch's last index before that batch's jobs, runs indexes i..end-1 of each batch, advances by the limit, stops exactly when end reached size and reports success only if every batch succeeded.",
 		NotDecided: "exactly-once and first-error-wins under all schedules (context.WithCancelCause's first-cause semantics and x/sync/semaphore are trusted); jobs that ignore their context.",
 		Run:        runC33,
 	})
@@ -182,6 +182,7 @@ func runC33(c *Ctx) {
 		c.MP(fn, "RunJobWorkerByJobs: Done only after every job was handed in", c.CallsD(fn, "*.Done()"), 1, GLoopDone("(ι < len(jobs))"))
 	}
 	// R33.4 --------------------------------------------------------------------------------------
+	batchWorkErrRules(c, "R33.4")
 	c.Rule("R33.4", "MustPass")
 	if fn := c.Need("util.BatchWork"); fn != nil {
 		run1 := c.CallsD(fn, "util.RunJobWorker(ctx, size, size, *)")
@@ -219,5 +220,22 @@ func runC33(c *Ctx) {
 				c.Report(cl, "a batch job runs index batchstart+n with the batch's last index", c.InstrPos(in), ok, a1+", "+a2)
 			}
 		}
+	}
+}
+
+// batchWorkErrRules (shared by C14, C15, C18, C33): BatchWork reports success only after the
+// preparation and the jobs of the batch it stops at succeeded — no batch's error is dropped.
+func batchWorkErrRules(c *Ctx, rule string) {
+	c.Rule(rule, "MustPass")
+	fn := c.Need("util.BatchWork")
+	if fn == nil {
+		return
+	}
+	nilRets := c.ReturnsD(fn, 0, "nil")
+	c.MP(fn, "BatchWork success: the jobs of the last batch succeeded", nilRets, 1, GOk("util.RunJobWorker(ctx, limit, *)"))
+	c.MP(fn, "BatchWork success: the preparation of the last batch succeeded", nilRets, 1, GOk("call(pref)(ctx, (var:end - 1))"))
+	for _, call := range c.CallsD(fn, "util.RunJobWorker(ctx, limit, *)") {
+		c.MPFrom(fn, call, "BatchWork: after a batch's jobs, success or a further batch only if they succeeded", append(nilRets, c.StoresD(fn, "&var:i")...), 2,
+			GOk("util.RunJobWorker(ctx, limit, *)"))
 	}
 }
